@@ -79,7 +79,7 @@ Out == v_lvl < 2 \/ Emit(RenderVec("C08-" \o ToString(v_idx), IF Cur.inh THEN "c
 
 --------------------------------------------------------------------------
 (* the destination writer receives exactly the structurally defined output, in order *)
-CaptureExact == v_lvl = 2 => (Ref.status = "ok" /\ MainOut(Ref) = Expected(Cur))
+CaptureExact == v_lvl = 2 => LET R == Ref IN (R.status = "ok" /\ MainOut(R) = Expected(Cur))
 (* every capture is closed by the matching restore; at the end only the destination writer is left *)
 RECURSIVE Depths(_, _, _)
 Depths(log, q, d) == IF q > Len(log) THEN d = 1
@@ -98,5 +98,5 @@ MainOnlyFromDepth0 == v_lvl = 2 => MainOnly(Ref.log, 1, 1)
 (* the concatenation of the logged writes is the destination writer's content *)
 RECURSIVE CatW(_)
 CatW(log) == IF log = <<>> THEN <<>> ELSE (IF Head(log).e = "w" THEN Head(log).d ELSE <<>>) \o CatW(Tail(log))
-OrderPreserved == v_lvl = 2 => CatW(Ref.log) = MainOut(Ref)
+OrderPreserved == v_lvl = 2 => LET R == Ref IN CatW(R.log) = MainOut(R)
 =============================================================================
